@@ -65,7 +65,7 @@ MkItems(e) == Defs \o <<Main(Blk(Pre \o <<SLet(PId("r"), TP, e), SLet(PId("x"), 
 \* value of e under the reference semantics, for given W and O
 ValOf(e, w, o) ==
   LET m == MainCtx(Defs \o <<Main(Blk(<<>>))>>, G0)
-      C == [fns |-> m.G.fns, al |-> m.G.al, wit |-> EmptyFn, args |-> EmptyFn]
+      C == [fns |-> m.G.fns, al |-> m.G.al, wit |-> EmptyFn, args |-> EmptyFn, env |-> DummyEnv]
       rho == ("w" :> w) @@ ("o" :> o) @@ ("a" :> VU(BitsOfNat(1, 8))) @@ ("b" :> VU(BitsOfNat(2, 8)))
   IN Ev(e, TP, rho, C)
 
